@@ -5,7 +5,7 @@ import torch
 
 from . import algrun, fill, project
 
-TMP = os.path.join(os.path.dirname(os.path.dirname(os.path.dirname(os.path.abspath(__file__)))), "out", "tmp")
+TMP = os.path.join(os.environ.get("VERIF_OUT") or os.path.join(os.path.dirname(os.path.dirname(os.path.dirname(os.path.abspath(__file__)))), "out"), "tmp")
 
 
 def make(tt, S, origin, real):
